@@ -35,7 +35,7 @@ if os.path.exists(_kf):
 COMMON_ASSUMPTIONS = ["A1", "A6", "A7"]
 
 _TB = ["z3 SMT solver (cvc5 for string queries z3 leaves open)", "pyvc VC generator (/verif/pyvc)", "CPython ast module"]
-from .bounded import query_enum_check, roundtrip_check  # noqa: E402
+from .bounded import query_enum_check, roundtrip_check, gc_check  # noqa: E402
 from .census import census_check  # noqa: E402
 
 _TBB = ["CPython executing the real functions", "in-memory lmdb/msgpack stand-ins (/verif/stubs)", "sqlite3", "the NIP-01 oracle in /verif/bounded/query_enum.py"]
@@ -44,7 +44,7 @@ PROPERTIES = {
     "C11": {"level": "exploration", "trusted_base": _TBB, "assumptions": ["EV", "LMDBSTUB", "ENUM"], "extra_checks": [query_enum_check("C11")]},
     "C12": {"level": "proof", "trusted_base": _TB, "assumptions": ["EV", "LMDB", "SQL", "ENUM"], "extra_checks": [query_enum_check("C12")]},
     "C10": {"level": "proof", "trusted_base": _TB, "assumptions": ["EV", "LMDB"]},
-    "C17": {"level": "proof", "trusted_base": _TB, "assumptions": ["A3", "GCSQL", "SQL"]},
+    "C17": {"level": "proof", "trusted_base": _TB, "assumptions": ["A3", "GCSQL", "SQL", "GCENUM"], "extra_checks": [gc_check("C17")]},
     "C20": {"level": "proof", "trusted_base": _TB, "assumptions": ["TCP", "A4", "EV"]},
     "C01": {"level": "proof", "trusted_base": _TB, "assumptions": ["REPL", "REPR", "INDUCT-ATOMS", "SQL", "ENUM", "LMDBSTUB"], "extra_checks": [query_enum_check("C01")]},
     "C04": {"level": "proof", "trusted_base": _TB, "assumptions": ["EV", "ENC", "JSON", "SQL", "RTRIP"], "extra_checks": [roundtrip_check("C04")]},
@@ -132,6 +132,16 @@ def replay(prop, path):
         sites, _n = scan(os.environ.get("PYVC_REPO", "/repo"))
         bad = [x for x in sites if x[3].split(" ")[0] not in ALLOWED[x[0]] or "(raw INSERT)" in x[3]]
         print(json.dumps(bad, indent=1))
+        if bad:
+            print("VIOLATION property=%s replay=%s" % (prop, path))
+        return 1 if bad else 0
+    if rp["unit"] == "bounded:garbage-collection-pass":
+        ex = rp["instances"][0].get("example", {})
+        env = dict(os.environ)
+        env["PYTHONPATH"] = ROOT
+        p = subprocess.run([sys.executable, os.path.join(ROOT, "bounded", "gc_enum.py"), "--backend", ex.get("backend", "sql")], env=env, capture_output=True, text=True)
+        print(p.stdout[-2000:])
+        bad = [l for l in p.stdout.splitlines() if l.startswith("FAIL") and " None " in l]
         if bad:
             print("VIOLATION property=%s replay=%s" % (prop, path))
         return 1 if bad else 0
